@@ -146,6 +146,9 @@ def run_counter_part(chk, args):
         if want == "violated" and not (r.error or "").startswith("invariant:"):
             chk.fail("spec/Metrics %s: the pinned check-then-add Inc was expected to violate the invariants (D13); got %s" % (cfg, r.error))
             return
+    if not q:
+        import unbounded    # thorough-tier extra (tlapm proof of the rounding law, Apalache inductive invariant of the counter); can only add a note
+        unbounded.metrics_law(chk)
     # 2. law and rollover cases, enumerated by TLC with their expected figures
     r = vlib.tlc(MET, "Metrics", "Cases_quick.cfg" if q else "Cases_thorough.cfg", workers=1, timeout=900)
     chk.add_tlc(r)
